@@ -75,6 +75,10 @@ var c07States = []c07State{
 	{"mbc3/ram-bank-2/lcd-on/sweep", 0x10, 6, 4, []c07W{{0x0000, 0x0a}, {0x4000, 0x02}, {0x2000, 0x05}, {0xa000, 0x77}, {0xff10, 0x79}, {0xff12, 0xf0}, {0xff13, 0x00}, {0xff14, 0x87}, {0xff41, 0x40}, {0xff45, 0x40}}, 1200},
 	{"mbc5/ram-on/lcd-off/length-counters", 0x1b, 2, 3, []c07W{{0x0000, 0x0a}, {0x4000, 0x03}, {0x2000, 0x07}, {0xff40, 0x11}, {0xff11, 0x3f}, {0xff12, 0xf0}, {0xff14, 0xc0}, {0xff20, 0x3f}, {0xff21, 0xf1}, {0xff23, 0xc0}}, 2000},
 	{"mbc3/clock-register-selected/lcd-off", 0x10, 6, 4, []c07W{{0x0000, 0x0a}, {0x4000, 0x08}, {0x6000, 0x00}, {0x6000, 0x01}, {0xff40, 0x00}}, 300},
+	{"mbc1/lcd-off/all-stat-sources/lyc-eq-ly", 0x03, 2, 3, []c07W{{0x0000, 0x0a}, {0xff41, 0x78}, {0xff45, 0x00}, {0xff40, 0x11}, {0xff0f, 0x00}}, 3100},
+	{"rom-only/lcd-on/stat-sources/lyc-reached/odd-sequencer-step/lengths-at-1", 0x00, 0, 0, []c07W{{0xff41, 0x78}, {0xff45, 0x16}, {0xff26, 0x80}, {0xff25, 0xff}, {0xff11, 0x3f}, {0xff12, 0xf0}, {0xff14, 0x80},
+		{0xff16, 0x3f}, {0xff17, 0xf0}, {0xff19, 0x80}, {0xff1a, 0x80}, {0xff1b, 0xff}, {0xff1c, 0x20}, {0xff1e, 0x80}, {0xff20, 0x3f}, {0xff21, 0xf0}, {0xff23, 0x80}}, 2600},
+	{"mbc5/lcd-on-line-0/odd-sequencer-step/timer-about-to-overflow", 0x1b, 2, 3, c07Cat([]c07W{{0x0000, 0x0a}, {0xff06, 0xfe}, {0xff05, 0xff}, {0xff07, 0x05}, {0xff41, 0x40}, {0xff45, 0x00}}, c07APURunning), 17556 + 2050},
 	{"mbc1/2k-ram/lcd-off/wave-running", 0x03, 1, 1, []c07W{{0x0000, 0x0a}, {0xa000, 0x99}, {0xff40, 0x00}, {0xff1a, 0x80}, {0xff1c, 0x40}, {0xff1d, 0x00}, {0xff1e, 0x87}}, 777},
 }
 
@@ -148,19 +152,29 @@ func c07Region(a uint16) string {
 }
 
 // c07Allowed reports whether a write to a may change what x reads.
-func c07Allowed(k *c07Cart, a, x uint16) bool {
+// c07Allowed returns the bits of location x that a write to a may change
+// (0: none). Status registers are bit-granular: LCDC and LYC writes may move
+// only the mode/coincidence bits of STAT, and a sound channel's envelope,
+// trigger, sweep and DAC registers only that channel's status bit in NR52.
+func c07Allowed(k *c07Cart, a, x uint16) uint8 {
+	all := func(ok bool) uint8 {
+		if ok {
+			return 0xff
+		}
+		return 0
+	}
 	if x == a {
-		return true
+		return 0xff
 	}
 	inRAM := x >= 0xa000 && x < 0xc000
 	switch {
 	case a < 0x8000:
-		return x < 0x8000 || inRAM
+		return all(x < 0x8000 || inRAM)
 	case a < 0xa000:
-		return false
+		return 0
 	case a < 0xc000:
 		if !inRAM {
-			return false
+			return 0
 		}
 		d := int(x) - int(a)
 		if d < 0 {
@@ -168,43 +182,62 @@ func c07Allowed(k *c07Cart, a, x uint16) bool {
 		}
 		switch {
 		case k.kind == 2:
-			return d%0x200 == 0
+			return all(d%0x200 == 0)
 		case k.kind == 3 && k.sel >= 8:
-			return true
+			return 0xff
 		case k.ramSize == 1:
-			return d%0x800 == 0
+			return all(d%0x800 == 0)
 		}
-		return false
+		return 0
 	case a < 0xde00:
-		return x == a+0x2000
+		return all(x == a+0x2000)
 	case a < 0xe000:
-		return false
+		return 0
 	case a < 0xfe00:
-		return x == a-0x2000
+		return all(x == a-0x2000)
 	case a < 0xff00:
-		return false
+		return 0
 	}
 	wave := x >= 0xff30 && x <= 0xff3f
+	status := func(bit uint8) uint8 {
+		if x == 0xff26 {
+			return bit
+		}
+		return 0
+	}
 	switch a {
 	case 0xff04, 0xff06, 0xff07:
-		return x == 0xff05
+		return all(x == 0xff05)
 	case 0xff40:
-		return x == 0xff41 || x == 0xff44
+		if x == 0xff41 {
+			return 0x07
+		}
+		return all(x == 0xff44)
 	case 0xff45:
-		return x == 0xff41
+		if x == 0xff41 {
+			return 0x04
+		}
+		return 0
 	case 0xff46:
-		return x >= 0xfe00 && x < 0xff00
+		return all(x >= 0xfe00 && x < 0xff00)
 	case 0xff26:
-		return x >= 0xff10 && x <= 0xff3f
-	case 0xff10, 0xff12, 0xff14, 0xff17, 0xff19, 0xff21, 0xff23:
-		return x == 0xff26
+		return all(x >= 0xff10 && x <= 0xff3f)
+	case 0xff10, 0xff12, 0xff14:
+		return status(0x01)
+	case 0xff17, 0xff19:
+		return status(0x02)
+	case 0xff21, 0xff23:
+		return status(0x08)
 	case 0xff1a, 0xff1e:
-		return x == 0xff26 || wave
+		if wave {
+			return 0xff
+		}
+		return status(0x04)
 	}
 	if a >= 0xff30 && a <= 0xff3f {
-		return wave
+		return all(wave)
 	}
-	return false
+	return 0
 }
 
 var c07ROMs = map[[3]uint8][]byte{}
@@ -305,7 +338,7 @@ func c07RunInner(c c07Case, st *c07Stats, step *int, phase *string) (sig string,
 				continue
 			}
 			changed = true
-			if c07Allowed(&kb, w.A, uint16(x)) {
+			if (before.mem[x]^after.mem[x])&^c07Allowed(&kb, w.A, uint16(x)) == 0 {
 				continue
 			}
 			return "w-" + c07Region(w.A) + "-changes-" + c07Region(uint16(x)),
@@ -386,7 +419,7 @@ var c07Boundaries = []int{0x0000, 0x00ff, 0x0100, 0x1fff, 0x2000, 0x2fff, 0x3000
 	0xc000, 0xddff, 0xde00, 0xdfff, 0xe000, 0xfdff, 0xfe00, 0xfe9f, 0xfea0, 0xfeff}
 
 func TestC07(t *testing.T) {
-	c := vf.New(t, "C07", "from 8 machine states (every controller type, LCD on/off, APU on/off with channels, sweep and length counters running, timer running, clock register selected, 2 KiB RAM): "+
+	c := vf.New(t, "C07", "from 11 machine states (every controller type, LCD on/off, every STAT source selected with LYC = LY, APU on/off with channels, sweep and length counters running incl. counters at 1 on an odd sequencer step, timer running and about to overflow, clock register selected, 2 KiB RAM): "+
 		"I/O sweep FF00-FFFF x 16 values (quick) / all 256 (thorough), one write per fresh machine; memory sweep 0000-FEFF x {00, FF, pseudo-random} over region boundaries and every 37th address (quick) / every address (thorough), 32 writes per machine; "+
 		"plus rapid (state, extra preamble writes, cycles, 1-6 writes). All 64 KiB are read before and after every write and the changed set is compared with the documented effect set of the address. "+
 		"Non-trivial: the write changed what at least one location reads. Distinct = (state, address, value) in the sweeps (by construction), hash of (state class, address, value class) for rapid cases.")
@@ -436,9 +469,9 @@ func TestC07(t *testing.T) {
 		}
 		c.Bulk("io-write", n, nt)
 		if thorough {
-			c.Exhaustive("8 machine states x FF00-FFFF x all 256 values, one write per fresh machine")
+			c.Exhaustive("11 machine states x FF00-FFFF x all 256 values, one write per fresh machine")
 		} else {
-			c.Exhaustive("8 machine states x FF00-FFFF x 16 values {walking bit, 00, FF, 7F, 0A, 55, AA, 2 pseudo-random}, one write per fresh machine")
+			c.Exhaustive("11 machine states x FF00-FFFF x 16 values {walking bit, 00, FF, 7F, 0A, 55, AA, 2 pseudo-random}, one write per fresh machine")
 		}
 	})
 
@@ -506,7 +539,7 @@ func TestC07(t *testing.T) {
 		}
 		c.Bulk("memory-write", n, nt)
 		if thorough {
-			c.Exhaustive("8 machine states x every address 0000-FEFF x {00, FF, pseudo-random}, 32 consecutive addresses per machine")
+			c.Exhaustive("11 machine states x every address 0000-FEFF x {00, FF, pseudo-random}, 32 consecutive addresses per machine")
 		}
 	})
 
